@@ -236,6 +236,33 @@ def d5(ctx, F):
     ctx.check(ok, "C04.D5.timeout-error", "request:elapsed-not-timeout-error", "an elapsed timeout is reported as SeliumError::RequestTimeout", (me or to)[0].span)
 
 
+def d5b(ctx, F):
+    """(a) the configured timeout is stored as given: `with_request_timeout` writes Duration::from_millis(<its argument>) — a clamp that can
+    only lengthen it (`max`) defeats the configured deadline; (b) the parts clones share — the id source and the pending table — are set
+    once, when the requestor is built: re-creating either in one clone (e.g. on reconnect) makes clones draw colliding ids into one table"""
+    for p_, b in sorted(F.bodies.items()):
+        if b.crate == "selium" and b.name == "with_request_timeout":
+            ctx.touch(b)
+            bad = [c.name() for c in b.calls() if strip_generics(c.callee) in ("core::cmp::Ord::max", "core::cmp::max", "core::cmp::Ord::clamp")]
+            mk = [c for c in b.calls() if strip_generics(c.callee).startswith("core::time::Duration::from_")]
+            ctx.check(not bad and len(mk) == 1, "C04.D5.timeout-stored-as-given", "with_request_timeout:clamped", "with_request_timeout stores the duration it is given (no max()/clamp that could lengthen it: %s)" % (bad or "none"), b.span)
+    rq = F.adt(RQ + "Requestor")
+    fields = [x for x in rq["variants"][0]["fields"]]
+    shared = [i for i, f in enumerate(fields) if f["ty"].startswith("alloc::sync::Arc<selium_protocol::request_id::RequestId>") or ("HashMap<u32" in f["ty"] and "oneshot::Sender" in f["ty"])]
+    ctx.check(len(shared) == 2, "C04.D1.shared-parts-set-once", "requestor:shared-fields", "Requestor has its shared id source and pending table (%d found)" % len(shared))
+    writes = []
+    for p_, b in sorted(F.bodies.items()):
+        if b.crate != "selium" or "request_reply::requestor" not in p_:
+            continue
+        for i, j, pl, rv, s in b.assigns():
+            proj = [e for e in pl["p"] if isinstance(e, int)]
+            if "*" in pl["p"] and proj[:1] and proj[0] in shared and len(proj) == 1 and "Requestor<" in b.local_ty(pl["l"]):
+                writes.append((p_, s["span"]))
+    ctx.check(not writes, "C04.D1.shared-parts-set-once", "requestor:shared-part-reassigned",
+              "the id source and the pending table are never reassigned after construction (%s)" % ([w[0].rsplit("::", 2)[-2] + "::" + w[0].rsplit("::", 1)[-1] for w in writes] or "no writes"),
+              (writes or [("", "")])[0][1])
+
+
 def d6(ctx, F):
     """separate requestor streams: the server keys each requestor's replies by an id that is unique among live requestors and stamped
     on every request (the tag / id rules of C02.D1 and the reply-routing rules of C02.D2)"""
@@ -253,3 +280,4 @@ def run(ctx):
     pending_map_discipline(ctx, F)
     d4(ctx, F)
     d5(ctx, F)
+    d5b(ctx, F)
